@@ -402,3 +402,25 @@ def returned_component(stmts: list[ast.stmt]) -> tuple[ast.Call | None, int | No
         if names.count(v.id) == 1:
             return body[0].value, names.index(v.id)
     return None, None
+
+
+def argument_sources(repo: Repo, fi: FuncInfo, param: str, depth: int = 2) -> set[str]:
+    """What the callers of `fi` pass for `param` (normalised text, callers' pure locals expanded; a caller that forwards its
+    own parameter is followed up to `depth` levels).  Empty if no call site is found."""
+    out: set[str] = set()
+    for g in repo.funcs.values():
+        for c in calls(g.node):
+            f = c.func
+            nm = f.attr if isinstance(f, ast.Attribute) else (f.id if isinstance(f, ast.Name) else None)
+            if nm != fi.name or repo.owner(c) is not g:
+                continue
+            a = arg_of(c, fi, param)
+            if a is None:
+                continue
+            txt = expanded(g.node, a)
+            if depth > 0 and isinstance(a, ast.Name) and a.id in g.params:
+                deeper = argument_sources(repo, g, a.id, depth - 1)
+                out |= deeper if deeper else {txt}
+            else:
+                out.add(txt)
+    return out
